@@ -340,6 +340,10 @@ func (so *stateObject) deepCopy(db *StateDB) *stateObject {
 	stateObject.suicided = so.suicided
 	stateObject.dirtyCode = so.dirtyCode
 	stateObject.deleted = so.deleted
+	// The delegation list is only written to the node database at Commit, so a
+	// copy must carry it (the slice is never modified in place).
+	stateObject.delegations = so.delegations
+	stateObject.dirtyDlgs = so.dirtyDlgs
 	return stateObject
 }
 
